@@ -314,9 +314,11 @@ class DistributedRateLimiter(Entity):
                 self._global_limit,
             )
 
-            # Create forwarding event to downstream entity
+            # Create forwarding event to downstream entity.  The store round trip
+            # has taken simulated time: date the event at the current clock (one
+            # dated at the request's arrival would be discarded as time travel).
             forward_event = Event(
-                time=now,
+                time=self._clock.now if self._clock is not None else now,
                 event_type=f"forward::{event.event_type}",
                 target=self._downstream,
                 context=event.context.copy(),
